@@ -128,6 +128,10 @@ func c05CLI(c *mon.Ctx, aText, bText string, o OptSet, yaml bool) {
 				args = append(args, "-o", "out.txt") // the exit status must not depend on where the diff is written
 				c.Feature("cli_with_-o")
 			}
+			if c.R.Chance(0.3) {
+				args = append(args, "-color") // nor on how it is rendered
+				c.Feature("cli_with_-color")
+			}
 			args = append(args, "a.json", "b.json")
 			res := RunCLI(c, bin, args, "", map[string]string{"a.json": aText, "b.json": bText})
 			c.Feature("cli_runs")
@@ -186,7 +190,7 @@ func init() {
 			"verdict compares len(Diff)==0, Equals and an independent oracle (ref.Canon / ref.EqPrec) pairwise; CLI: exit status of the three binaries " +
 			"on a sample of the same pairs; non-trivial = operands differ textually; distinct = distinct (a, b, options)",
 		Floors: map[string]int{"oracle_equal": 5000, "oracle_unequal": 5000, "equal_but_textually_different": 2000, "cli_runs": 500,
-			"cli_status_0": 100, "cli_status_1": 100, "same_document_shared_identities": 3000, "a_is_patch_result": 3000, "b_is_patch_result": 3000},
+			"cli_status_0": 100, "cli_status_1": 100, "same_document_shared_identities": 3000, "cli_with_-color": 100, "a_is_patch_result": 3000, "b_is_patch_result": 3000},
 		Assumptions: []string{
 			"oracle: ref.Canon under the reading of the option set; ref.EqPrec for Precision",
 			"SetKeys inputs satisfy the key precondition; MERGE inputs include nulls in the library leg (the biconditional is not restricted to null-free documents), the CLI leg keeps them null-free",
